@@ -169,3 +169,34 @@ def lifecycle_case(seed, mode="none", clock="SIMULATED", topology="random", hist
     wd("second stop()", run.graph.stop)
     out["double_stop"] = True
     return out
+
+
+def wakeup_case(seed, policy="none", episodes=10, nsteps=10, call_limit=60):
+    """Many short episodes of one random graph under a schedule perturbation, every lifecycle call under a watchdog: finds
+    schedule-dependent stalls *between the node and connection threads* (an enabled handler nobody triggers any more), in which
+    run()/step() never return. Returns dict(ok=..) or a `hang` result naming the call."""
+    from rex import _verif
+    import tasks_rt
+
+    rng = random.Random(seed)
+    spec = rt.rand_spec(rng, tie_stream=False)
+    run = rt.AsyncRun(spec)
+    wd = CallWatchdog(call_limit, dict(spec=spec, policy=policy, seed=seed))
+    import numpy as onp
+
+    t0 = time.time()
+    for it in range(episodes):
+        ctl = tasks_rt.Perturb(policy, seed * 1000 + it, None)
+        _verif.set_controller(ctl if policy != "none" else None)
+        gs = run.gs0.replace(eps=onp.int32(it))
+        api = ["run", "step"][it % 2]
+        if api == "run":
+            for k in range(nsteps):
+                gs = wd(f"episode {it} (policy {policy}): run() number {k}", run.graph.run, gs)
+        else:
+            gs, ss = wd(f"episode {it} (policy {policy}): reset()", run.graph.reset, gs)
+            for k in range(nsteps):
+                gs, ss = wd(f"episode {it} (policy {policy}): step() number {k}", run.graph.step, gs)
+        wd(f"episode {it} (policy {policy}): stop()", run.graph.stop)
+    _verif.set_controller(None)
+    return dict(ok=True, spec=spec, episodes=episodes, wall=time.time() - t0, feats=sorted(rt.spec_features(spec)))
